@@ -39,9 +39,20 @@ type genCase struct {
 func generated(c *Ctx, n int, f func(gc genCase)) {
 	for i := 0; i < n; i++ {
 		sub := c.Rng.Int63()
-		base := genProgram(rand.New(rand.NewSource(sub)))
+		base, _ := genProgramMut(rand.New(rand.NewSource(sub)), "", ruleHits)
 		f(genCase{base, ""})
 		for k := 0; k < 3; k++ {
+			if c.Rng.Intn(2) == 0 {
+				// a composite scenario in its ill typed variant (the program
+				// is generated again with the request)
+				kind := compMutationKinds[c.Rng.Intn(len(compMutationKinds))]
+				c.Rng.Int63()
+				if m, ok := genProgramMut(rand.New(rand.NewSource(sub)), kind, nil); ok && !avoided(m) {
+					ruleHits["mutant:"+kind]++
+					f(genCase{m, kind})
+				}
+				continue
+			}
 			m := genProgram(rand.New(rand.NewSource(sub))) // the same program again
 			kind := mutationKinds[c.Rng.Intn(len(mutationKinds))]
 			mr := rand.New(rand.NewSource(c.Rng.Int63()))
@@ -49,6 +60,21 @@ func generated(c *Ctx, n int, f func(gc genCase)) {
 				f(genCase{m, kind})
 			}
 		}
+	}
+}
+
+// ruleHits: how often each composite scenario (group of rules) was emitted and
+// each ill typed variant requested, printed into the evidence.
+var ruleHits = map[string]int{}
+
+func reportRuleHits(c *Ctx) {
+	var ks []string
+	for k := range ruleHits {
+		ks = append(ks, k)
+	}
+	sort.Strings(ks)
+	for _, k := range ks {
+		c.Add("rule-"+k, ruleHits[k])
 	}
 }
 
@@ -88,6 +114,9 @@ var reIndexBounds = regexp.MustCompile(`index (\d+) out of bounds \[0:(\d+)\]`)
 
 // knownSignature maps a disagreement to the name of a recorded finding.
 func knownSignature(dir, src, scriggoMsg, goMsg string) string {
+	if sig := knownSignatureComp(dir, src, scriggoMsg, goMsg); sig != "" {
+		return sig
+	}
 	switch {
 	case dir == "rejects-well-typed" && scriggoMsg == "division by zero":
 		return "float-div-const-zero"
@@ -144,7 +173,6 @@ func judge(c *Ctx, src string, std bool, origin string, extra map[string]string)
 // emits their signature while they still fail.
 var reproducers = []struct{ sig, src string }{
 	{"float-div-const-zero", "package main\n\nfunc main() {\n\tf := 1.5\n\t_ = f / 0.0\n}\n"},
-	{"const-index-eq-len-accepted", "package main\n\nfunc main() {\n\tvar a [3]int\n\t_ = a[3]\n}\n"},
 }
 
 // regressions: inputs of the defects repaired by fix commits of this work
@@ -173,6 +201,9 @@ var regressions = []string{
 	"package main\n\nconst c = 0 << 600\n\nfunc main() {\n\t_ = c\n}\n", // const-zero-shift-count-512 (repaired by the consts package: fix d3683c7)
 	"package main\n\nconst c = 0 << 1075\n\nfunc main() {\n\t_ = c\n}\n",
 	"package main\n\nconst c = 1 << 512\n\nfunc main() {\n\t_ = c >> 500\n}\n",
+	"package main\n\nfunc main() {\n\tvar e interface{}\n\ts := \"a\"\n\t_ = s >= e\n}\n", // ordering with an interface operand on the right (fix 5ae2bc4)
+	"package main\n\nfunc main() {\n\tvar e interface{}\n\tx := 1\n\t_ = x > e\n}\n",
+	"package main\n\nfunc main() {\n\tvar a [3]int\n\t_ = a[3]\n}\n", // const-index-eq-len-accepted, repaired for arrays that are not empty (work package typing3)
 }
 
 // regressionsStd: like regressions, judged with the standard library packages.
@@ -244,6 +275,7 @@ func init() {
 				c.Line("tc", term, r.Verdict)
 			}
 		})
+		reportRuleHits(c)
 	})
 
 	// in-Coq cross-check of the extraction: a Coq file that evaluates tc with
@@ -283,7 +315,7 @@ func init() {
 			judge(c, src, std, "replay", nil)
 			return
 		}
-		for _, rp := range reproducers {
+		for _, rp := range append(append([]struct{ sig, src string }{}, reproducers...), reproducersComp...) {
 			r := scriggoBuild(rp.src, nativePkgs)
 			ok, goMsg, _ := goTypes(rp.src, false, "")
 			c.Count("evaluations")
@@ -307,6 +339,7 @@ func init() {
 		cmpPrograms(ext)
 		termPrograms(ext)
 		miscPrograms(ext)
+		compositePrograms(ext)
 		perKind := map[string][2]int{}
 		seen := map[string]bool{}
 		samples := 0
@@ -343,6 +376,7 @@ func init() {
 			c.Add("gotypes-accept:"+k, perKind[k][0])
 			c.Add("gotypes-reject:"+k, perKind[k][1])
 		}
+		reportRuleHits(c)
 		corpus(c)
 	})
 }
